@@ -69,7 +69,11 @@ t = time.time()
 rc, out = sh("python3 tools/check.py %s --tier quick" % prop, cwd=copy, env={"VERIF_REPO": wt, "VERIF_BUILD_TAG": "seed_" + prop.lower()}, timeout=10800)
 res["check_exit"] = rc
 res["check_wall_s"] = round(time.time() - t)
-res["violation_lines"] = [l for l in out.split("\n") if l.startswith("VIOLATION") or l.startswith("KNOWN-FINDING")][:12]
+_vl = [l for l in out.split("\n") if l.startswith("VIOLATION") or l.startswith("KNOWN-FINDING")]
+res["n_violation_lines"] = sum(l.startswith("VIOLATION") for l in _vl)
+res["n_violation_lines_with_failing_input"] = sum(l.startswith("VIOLATION") and "no-failing-input-found" not in l for l in _vl)
+# lines that come with a failing input first (the record keeps 12)
+res["violation_lines"] = sorted(_vl, key=lambda l: (not l.startswith("VIOLATION"), "no-failing-input-found" in l))[:12]
 res["check_tail"] = out.strip().split("\n")[-1]
 reps = {}
 for l in res["violation_lines"][:4]:
